@@ -284,7 +284,7 @@ def run(ctx):
                 if type(e).__name__ != "ResultPathMatchFailure":
                     ctx.violation("resultpath-raises-other-exception", dict(doc=doc, path="$$.x", exc=type(e).__name__))
     # random deeper documents (depth-2 sample at quick; hostile keys at thorough and a slice of quick)
-    n_rand = ctx.pick(3000, 120000)
+    n_rand = ctx.pick(3000, 900000)
     for k in range(n_rand):
         i += 1
         if not ctx.mine(i):
@@ -307,7 +307,7 @@ def run(ctx):
             alias = rng.choice(["none", "none", "input", "subtree"])
             check_write(ctx, P, doc, toks, path, rand_doc(rng, 2, keys) if alias == "none" else rng.randrange(50), alias)
     # the same laws through the real engine: one Pass state
-    n_state = ctx.pick(1200, 20000)
+    n_state = ctx.pick(1200, 150000)
     for k in range(n_state):
         i += 1
         if not ctx.mine(i):
